@@ -45,3 +45,8 @@ package certgen
 //@   requires strongKey(userPub)                                                                         #C10.ipcert-strong @C10
 //@   atcall crypto/x509.CreateCertificate requires (rnd io.Reader, template *x509.Certificate, parent *x509.Certificate, pub any, priv any) :: template.Subject.CommonName == userName && pub == userPub && parent == caCert && !template.IsCA && template.BasicConstraintsValid  #C02.ipcert-subject-key @C02
 //@   atcall crypto/x509.CreateCertificate requires (rnd io.Reader, template *x509.Certificate, parent *x509.Certificate, pub any, priv any) :: timeNanos(template.NotBefore) == nowNanos() && timeNanos(template.NotAfter) == nowNanos() + int64(duration)  #C03.ipcert-window @C03
+
+// verdict of the netblock test, as seen by callers (its meaning is C11's iff clause)
+//@ ghost func ipInCertNetblocks(cert *x509.Certificate, remoteAddr string) bool
+//@ func VerifyIPRestrictedX509CertIP
+//@   assume ret1 == nil ==> ret0 == ipInCertNetblocks(userCert, remoteAddr)
